@@ -796,8 +796,9 @@ fn check_path(c: &Case, s: &Setup, p: &PathIn, out: Option<(&Nh, &Attrs)>, st: &
             if !ok && pol == 1 {
                 ok = nh.is_some_and(|n| n.addr() == policy_nh_addr(s.nhk.v6));
             }
-            if !ok && pol == 3 {
-                ok = p.nexthop.is_some() && *nh == p.nexthop;
+            if pol == 3 && p.nexthop.is_some() {
+                // set next-hop unchanged: the policy asks for the received next hop, not for self
+                ok = *nh == p.nexthop;
             }
             // locally originated route with an explicitly configured next hop
             // (third-party next hop, RFC 4271 5.1.3): accepted reading.
@@ -1101,6 +1102,17 @@ fn content_rows() -> Vec<[usize; 6]> {
                     r[i] = a;
                     r[j] = b;
                     rows.insert(r);
+                }
+            }
+        }
+    }
+    // the add-path branch and the best-path branch of the exporter are two code paths that both read the
+    // next hop and the policy: every (max, next hop, policy) TRIPLE as well, over two attribute sets
+    for a in 0..dims[0] {
+        for n in 0..dims[3] {
+            for p in 0..dims[4] {
+                for at in 0..dims[1].min(2) {
+                    rows.insert([a, at, 0, n, p, 0]);
                 }
             }
         }
